@@ -1,0 +1,76 @@
+//! Verification hooks. Compiled only with `--cfg btdht_verif`; never part of a normal build.
+//!
+//! Re-exports the routing-table and transaction-id types (which are `pub` inside private modules)
+//! and keeps a thread-local registry through which a single-threaded simulator can inspect the
+//! nodes running on its thread.
+
+pub use crate::bucket::{Bucket, MAX_BUCKET_SIZE};
+pub use crate::node::{Node, NodeHandle, NodeStatus};
+pub use crate::table::{leading_bit_count, RoutingTable, MAX_BUCKETS};
+pub use crate::transaction::{AIDGenerator, MIDGenerator, TransactionID};
+
+use std::{
+    cell::RefCell,
+    collections::HashMap,
+    net::SocketAddr,
+    sync::{Arc, Mutex},
+};
+
+/// Per-node probe data, keyed by the node's local address.
+#[derive(Default, Clone)]
+pub struct Probe {
+    /// Routing table of the most recent node instance bound to this address.
+    pub table: Option<Arc<Mutex<RoutingTable>>>,
+    /// Number of node instances started on this address.
+    pub incarnations: u64,
+    /// Number of table refresh rounds executed.
+    pub refresh_rounds: u64,
+    /// Number of times the handler observed a transition to the bootstrapped state.
+    pub bootstrap_completions: u64,
+    /// Number of entries in the handler's timer queue (published once per loop turn).
+    pub timer_len: usize,
+    /// Largest timer queue length seen so far.
+    pub timer_len_max: usize,
+}
+
+thread_local! {
+    static PROBES: RefCell<HashMap<SocketAddr, Probe>> = RefCell::new(HashMap::new());
+}
+
+pub fn reset() {
+    PROBES.with(|p| p.borrow_mut().clear());
+}
+
+pub fn probe(addr: &SocketAddr) -> Option<Probe> {
+    PROBES.with(|p| p.borrow().get(addr).cloned())
+}
+
+pub fn addrs() -> Vec<SocketAddr> {
+    PROBES.with(|p| p.borrow().keys().copied().collect())
+}
+
+pub(crate) fn register_table(addr: SocketAddr, table: Arc<Mutex<RoutingTable>>) {
+    PROBES.with(|p| {
+        let mut p = p.borrow_mut();
+        let e = p.entry(addr).or_default();
+        e.table = Some(table);
+        e.incarnations += 1;
+    });
+}
+
+pub(crate) fn count_refresh_round(addr: SocketAddr) {
+    PROBES.with(|p| p.borrow_mut().entry(addr).or_default().refresh_rounds += 1);
+}
+
+pub(crate) fn count_bootstrap_completion(addr: SocketAddr) {
+    PROBES.with(|p| p.borrow_mut().entry(addr).or_default().bootstrap_completions += 1);
+}
+
+pub(crate) fn publish_timer_len(addr: SocketAddr, len: usize) {
+    PROBES.with(|p| {
+        let mut p = p.borrow_mut();
+        let e = p.entry(addr).or_default();
+        e.timer_len = len;
+        e.timer_len_max = e.timer_len_max.max(len);
+    });
+}
